@@ -63,7 +63,11 @@ claim('C13', 'call-graph purity of salsa tracked bodies + field write sets and m
       'Partial: all 8 tracked query bodies reach no clock/env/fs/RNG and receive only &dyn salsa::Database; Database.sources is written only by set_source_text/remove_source_text, each of which bumps the revision and updates the salsa-side table and synced_revision on every changing path; the project file list is sorted by FileId before it becomes a salsa input; every iteration over a persistent hash container is sorted, order-insensitive or a reviewed exposure; no RandomState iteration in trust_hir. Equality of incremental and fresh answers itself is not decided.',
       _TB, 'DESIGN.md section 4 / C13')
 
+claim('C03', 'coercion table extraction (type-checked HIR) + value-provenance classification of every storage mutator call against a frozen table',
+      'Partial: every coercion table arm builds the value class of its declared type/template and every elementary type has an explicit arm; the stores that have a coercion (FOR control, typed I/O latch, initialisers) still pass through it; all 61 calls of the five storage mutators are classified by the provenance of the stored value (coerced / default / fresh instance / typed literal / same slot / external / uncoerced) against a frozen table, so a new store site or a coerced site becoming uncoerced is reported. The 12 uncoerced expression stores are a genuine design-level defect (known finding F4). Value ranges, element types and alias resolution are not decided.',
+      _TB, 'DESIGN.md section 4 / C03')
+
 _PENDING = 'check not built yet in this commit (work in progress; see DESIGN.md section 10 for the build order)'
-for _p in ['C02','C03','C04','C16']:
+for _p in ['C02','C04','C16']:
     na(_p, _PENDING)
 na('C15', 'formatting token-sequence preservation and idempotence are equalities between values computed by string manipulation; no shape-of-code fact is a necessary condition that a realistic breaking edit would violate (DESIGN.md section 5)')
